@@ -468,6 +468,18 @@ class Oracle(object):
             cres = sum(self.ob[o.name]['dep'] for o in cd.observations['stored'] if o.name in self.ob)
             if abs((cd.total_capacity - cfree) - cres) > EPS:
                 self.viol('C07', 'tier_accounting', 'cold used %s, cold-resident %s' % (cd.total_capacity - cfree, cres))
+            # C18: with no move in flight every resident observation is listed in exactly one tier
+            hl = [o.name for o in h.observations['stored']] + [o.name for o in h.observations['scheduled']]
+            cl = [o.name for o in cd.observations['stored']]
+            for n, L in self.ob.items():
+                if not L['dep'] or n in self.prev_hfin or self.prev_status.get(n) == 'RUNNING':
+                    continue
+                k_ = hl.count(n) + cl.count(n)
+                if k_ != 1 and not (L['stream'] and not L['stream'][-1].proc.triggered):
+                    self.viol('C18', 'not_in_exactly_one_tier', '%s holds %s of data and is listed in %d tiers (hot %s, cold %s)' % (
+                        n, L['dep'], k_, hl, cl), site='sim')
+            if h.observations['transfer'] is not None or cd.observations['transfer'] is not None:
+                self.viol('C18', 'transfer_slot_not_cleared', 'no move in flight but a transfer slot is set', site='sim')
         for o in sim.instrument.observations:
             L = self.ob.get(o.name)
             if L is not None and abs(o.total_data_size - L['dep']) > EPS:
